@@ -21,11 +21,14 @@ import (
 type suiteFn func(d *leandrv.Driver, r *rng.R, res *report.Result, thorough bool) error
 
 var suites = map[string]suiteFn{
-	"mem-recordstore": adapters.RecordStoreSuite(adapters.MemRecordStore, "C17"),
-	"pure-routing": pure.Routing,
-	"pure-shards":  pure.Shards,
-	"pure-ctl":     pure.Controller,
-	"pure-graph":   pure.GraphSuite,
+	"mem-recordstore":  adapters.RecordStoreSuite(adapters.MemRecordStore, "C17"),
+	"mem-streamer":     adapters.StreamerSuite,
+	"mem-connector":    adapters.ConnectorSuite,
+	"mem-timeoutstore": adapters.TimeoutStoreSuite(adapters.MemTimeoutStore, "C12", "mem-timeoutstore"),
+	"pure-routing":     pure.Routing,
+	"pure-shards":      pure.Shards,
+	"pure-ctl":         pure.Controller,
+	"pure-graph":       pure.GraphSuite,
 }
 
 func main() {
